@@ -31,10 +31,12 @@ TOL_VOX = F(10e-8)                                   # default padding of the vo
 BAND = F(1, 2 ** 50)
 
 PARTIAL = [
-    "convexHull_correct (every input point is left-of-or-on every hull edge; hull strictly convex and minimal): only hull ⊆ input ∪ … is proved (convexHull_subset); the rest is checked by the exact oracle on every generated point set",
+    "convexHull_correct (every input point is left-of-or-on every hull edge; strict convexity at the two junctions of lower and upper chain; minimality): proved are hull ⊆ input (convexHull_correct_partial) and that the lower and the upper chain are chains of strict left turns (convexHull_chains_turn_left_partial); the rest is checked by the exact oracle on every generated point set",
     "wnPoly_convex (for a convex counter-clockwise polygon and an off-boundary point the test is true iff the point is strictly left of every edge) and the general 'wn_poly = inside for simple polygons' are not proved; proved are translation invariance, cyclic-shift invariance, negation under reversal and the per-edge crossing rule; inside/outside is checked against an independent crossing-number test by the oracle",
-    "ray: the status theorems assume the exact square root (m*m = |d1 x d2|^2) and compare squared distances; the effect of the rounded sqrt (points differ by rounding, hence the tolerance) is only observed by the correspondence / oracle",
-    "voxelize: the model takes the bounding box and the evaluated points of the object as inputs (surface evaluation is C01); 'filled iff some sampled point inside' and 'grid covers the box' are proved for the grid of frange values, termination of frange under an explicit Archimedean bound",
+    "findCtrlpts_exact (inside a span every returned control point has a non-zero basis function: strict positivity of A2.2) is not proved; proved: returned indices are span-p..span and every non-zero Cox-de Boor function has its index there (parameter in the half-open domain [U_p, U_n); the closed end u = U_n is covered by the oracle only)",
+    "ray: the status / coincidence theorems assume the exact square root (m*m = |d1 x d2|^2) and compare squared distances; the effect of the rounded sqrt (points differ by rounding, hence the tolerance) is only observed by the correspondence / oracle",
+    "voxelize: the model takes the bounding box and the evaluated points of the object as inputs (surface evaluation is C01, bounding box C18); termination of frange is proved under an explicit bound N with stop - start <= N*step + step/2 (and for Archimedean fields)",
+    "F-20a: generate_voxel_grid(use_cubes=True) on a flat bounding box does not terminate (voxelGrid_cubes_flat_refutes_termination); coverage theorems therefore assume the grid was returned",
 ]
 ASSUMPTIONS = [
     "ray: squared distance of the two evaluated points is not within relative 2^-50 of tol^2 (verified per case by the oracle)",
@@ -275,7 +277,7 @@ def gen_rays(rng, n):
         a2 = [x + d for x, d in zip(a1, d1)]; b2 = [x + d for x, d in zip(b1, d2)]
         out.append(ray_case(kind, a1, a2, b1, b2, tol=None if rng.random() < .8 else rng.choice([F(1, 1000), F(1, 2 ** 20)])))
     # tolerance probes: cross product component / line distance at half and at twice tol
-    for mul in (F(1, 2), F(2)):
+    for mul in (F(1, 2), F(3, 4), F(3, 2), F(2)):
         e = TOL_RAY * mul
         out.append(ray_case('tol-cross', [F(0), F(0), F(0)], [F(1), F(0), F(0)], [F(0), F(1), F(0)], [F(1), F(1) + e, F(0)], tags=('tol-probe',)))
         out.append(ray_case('tol-cross', [F(0), F(0)], [F(1), F(0)], [F(0), F(1)], [F(1), F(1) + e], tags=('tol-probe',)))
@@ -482,14 +484,16 @@ def gen(rng, tier):
     # ---- in/out test (helper level) incl. padding probes
     for k in range(40 if quick else 500):
         lo = rpt(rng, 3, 3, (1, 2)); hi = [a + F(rng.randint(0, 4), rng.choice([1, 2])) for a in lo]
-        tol = rng.choice([TOL_VOX, TOL_VOX, F(0), F(1, 100)])
+        tol = rng.choice([None, None, TOL_VOX, F(0), F(1, 100)])      # None = the default padding 10e-8 of the code
+        t = TOL_VOX if tol is None else tol
         pts = []
         for _ in range(rng.randint(0, 4)):
             p = [rng.choice([lo[i], hi[i], (lo[i] + hi[i]) / 2, lo[i] - 1, hi[i] + 1,
-                             lo[i] - tol / 2, lo[i] - tol * 2, hi[i] + tol / 2, hi[i] + tol * 2, lo[i] - tol, hi[i] + tol]) for i in range(3)]
+                             lo[i] - t / 2, lo[i] - t * 2, hi[i] + t / 2, hi[i] + t * 2, lo[i] - t, hi[i] + t,
+                             lo[i] - t * F(3, 4), lo[i] - t * F(3, 2), hi[i] + t * F(3, 4), hi[i] + t * F(3, 2)]) for i in range(3)]
             pts.append(p)
-        out.append(Case('inside', "inside %s %s %s %s" % (show_list(lo), show_list(hi), fr(tol), show_pts(pts)),
-                        dict(lo=lo, hi=hi, tol=tol, pts=pts)))
+        out.append(Case('inside', "inside %s %s %s %s" % (show_list(lo), show_list(hi), fr(t), show_pts(pts)),
+                        dict(lo=lo, hi=hi, tol=tol, pts=pts), tags=('tol-probe',)))
     # ---- voxelize (public level)
     for k in range(14 if quick else 120):
         d = surf_data(rng, flat=(rng.random() < .2))
@@ -535,6 +539,9 @@ def gen(rng, tier):
 # ------------------------------------------------------------------ implementation
 class Hang(Exception):
     pass
+
+
+_HUNG = set()      # op lines on which the implementation already failed to return (do not wait twice)
 
 
 def guarded(f, seconds=2.0):
@@ -594,13 +601,19 @@ def impl(c):
         try:
             return show_pts2(guarded(lambda: vxl.generate_voxel_grid([qs(d['lo']), qs(d['hi'])], d['sz'], use_cubes=d['cubes'])))
         except Hang:
+            _HUNG.add(c.line)
             return "HANG"
     if k == 'inside':
-        return str(vxl.is_point_inside_voxel([qs(d['lo']), qs(d['hi'])], qpts(d['pts']), tol=q(d['tol'])))
+        bb = [qs(d['lo']), qs(d['hi'])]
+        if d['tol'] is None:     # defaults of both routines
+            r1 = vxl.is_point_inside_voxel(bb, qpts(d['pts'])); r2 = vxl.find_inouts_st([bb], qpts(d['pts']))[0]
+            return str(r1) if r1 == r2 else "is_point_inside_voxel=%s find_inouts_st=%s" % (r1, r2)
+        return str(vxl.is_point_inside_voxel(bb, qpts(d['pts']), tol=q(d['tol'])))
     if k == 'vox':
         try:
             s, (grid, filled) = _voxelize(d)
         except Hang:
+            _HUNG.add(c.line)
             return "HANG"
         return ",".join(str(x) for x in filled) + " " + show_pts2(grid)
     if k == 'fcpc':
@@ -691,13 +704,19 @@ def oracle(c):
                 return None
             return "generate_voxel_grid accepts a grid size <= 1"
         try:
+            if c.line in _HUNG:
+                raise Hang()
             grid = guarded(lambda: vxl.generate_voxel_grid([qs(lo), qs(hi)], sz, use_cubes=d['cubes']))
         except Hang:
             return "generate_voxel_grid(use_cubes=%s) does not return for the box %s .. %s" % (d['cubes'], show_list(lo), show_list(hi))
         return check_grid(grid, lo, hi, sz, d['cubes'])
     if k == 'inside':
         lo, hi, tol, pts = d['lo'], d['hi'], d['tol'], d['pts']
-        got = vxl.is_point_inside_voxel([qs(lo), qs(hi)], qpts(pts), tol=q(tol))
+        if tol is None:
+            tol = TOL_VOX
+            got = vxl.find_inouts_st([[qs(lo), qs(hi)]], qpts(pts))[0]
+        else:
+            got = vxl.is_point_inside_voxel([qs(lo), qs(hi)], qpts(pts), tol=q(tol))
         want = int(any(all(lo[i] - tol <= p[i] < hi[i] + tol for i in range(3)) for p in pts))
         if got != want:
             return "is_point_inside_voxel = %s, expected %s" % (got, want)
@@ -705,6 +724,8 @@ def oracle(c):
     if k == 'vox':
         lo, hi = bbox_of(d['P'])
         try:
+            if c.line in _HUNG:
+                raise Hang()
             s, (grid, filled) = _voxelize(d)
         except Hang:
             return "voxelize(use_cubes=%s) does not return for a surface with bounding box %s .. %s" % (d['cubes'], show_list(lo), show_list(hi))
@@ -778,8 +799,9 @@ def check_grid(grid, lo, hi, sz, cubes):
     mins = [sorted({F(bb[0][i].q) for bb in grid}) for i in range(3)]
     ext = [b - a for a, b in zip(lo, hi)]
     steps = [e / (s - 1) for e, s in zip(ext, sz)]
-    if cubes:
-        steps = [min(steps)] * 3
+    if cubes:       # cubes: one common edge length, the smallest positive step (a zero step cannot tile a non-empty extent)
+        pos = [x for x in steps if x > 0]
+        steps = [min(pos) if pos else F(0)] * 3
     if len(grid) != len(mins[0]) * len(mins[1]) * len(mins[2]):
         return "voxel grid is not a full product grid"
     if not cubes and len(grid) != (sz[0] if ext[0] else 1) * (sz[1] if ext[1] else 1) * (sz[2] if ext[2] else 1):
